@@ -103,7 +103,14 @@ class PopenFuture(concurrent.futures.Future):
         # use psutil to kill the entire process tree (including children)
         try:
             parent_process = psutil.Process(self.process.pid)
-            processes = parent_process.children(recursive=True)
+            try:
+                processes = parent_process.children(recursive=True)
+            except psutil.NoSuchProcess:
+                raise
+            except Exception:
+                # enumerating the process tree can fail (psutil may trip over /proc entries of
+                # processes that are starting or exiting): still stop the main process
+                processes = []
             processes.append(parent_process)
 
             # ask politely to terminate first
@@ -125,6 +132,12 @@ class PopenFuture(concurrent.futures.Future):
         except psutil.NoSuchProcess:
             # process already terminated, nothing to do
             pass
+
+        except Exception:
+            # psutil itself failed (e.g. while parsing /proc): make sure that at least
+            # the main process does not survive
+            with contextlib.suppress(Exception):
+                self.process.kill()
 
         # ensure file descriptors are closed after process termination.
         # note: when a process is killed via psutil, the file descriptors remain open on the Python side,
